@@ -466,14 +466,18 @@ def rule_r7_union_extent(ctx: Ctx) -> None:
     nonide = sorted(x for x in rejected if not M._ide_name(ctx, x))
     ctx.check(not nonide, u.short + ".__init__", "rejection class", "rejections must be InvalidDefinitionError subclasses", where_u, nonide)
 
-    # which attributes count as fields / variants: evaluated over an abstract attribute list (fields, a padding field, constants)
+    # which attributes count as fields / variants: asked of a structure and a union built by their own constructors over an
+    # abstract attribute list (fields, a padding field, constants)
     comp = ctx.cls(SER + "_composite.CompositeType")
-    F, P, Cn = (isa_of(ctx, SER + "_attribute." + n) for n in ("Field", "PaddingField", "Constant"))
-    attrs = [Sym(_isa_=F, name="a"), Sym(_isa_=Cn, name="K"), Sym(_isa_=P, name=""), Sym(_isa_=F, name="b"), Sym(_isa_=Cn, name="L")]
-    for cls_, prop, want_names in ((comp, "fields", ["a", "", "b"]), (comp, "fields_except_padding", ["a", "b"]), (comp, "constants", ["K", "L"]), (u, "number_of_variants", 3)):
-        me = make_obj(ctx, cls_, attributes=list(attrs))
+    s_attrs = [M.attribute_sym(ctx, "Field", "a"), M.attribute_sym(ctx, "Constant", "K"), M.attribute_sym(ctx, "PaddingField", ""), M.attribute_sym(ctx, "Field", "b"), M.attribute_sym(ctx, "Constant", "L")]
+    u_attrs = [M.attribute_sym(ctx, "Field", "a"), M.attribute_sym(ctx, "Constant", "K"), M.attribute_sym(ctx, "Field", "b"), M.attribute_sym(ctx, "Field", "c"), M.attribute_sym(ctx, "Constant", "L")]
+    s_obj = M.structure(ctx, attributes=s_attrs)
+    u_obj = M.structure(ctx, attributes=u_attrs, kind="UnionType")
+    if isinstance(s_obj, str) or isinstance(u_obj, str):
+        raise AnalysisError("a structure / union over an abstract attribute list was rejected: %s / %s" % (s_obj if isinstance(s_obj, str) else "ok", u_obj if isinstance(u_obj, str) else "ok"))
+    for cls_, me, attrs, prop, want_names in ((comp, s_obj, s_attrs, "fields", ["a", "", "b"]), (comp, s_obj, s_attrs, "fields_except_padding", ["a", "b"]), (comp, s_obj, s_attrs, "constants", ["K", "L"]), (comp, s_obj, s_attrs, "attributes", ["a", "K", "", "b", "L"]), (u, u_obj, u_attrs, "fields", ["a", "b", "c"]), (u, u_obj, u_attrs, "number_of_variants", 3)):
         try:
-            got = Folder({"self": me}, repo, cls_.module, cls_).fold(ast.parse("self." + prop, mode="eval").body)
+            got = _prop(ctx, me, prop)
         except _Unf as ex:
             raise AnalysisError("%s.%s: cannot evaluate over an abstract attribute list: %s" % (cls_.name, prop, ex))
         ctx.count()
